@@ -31,7 +31,7 @@ const (
 
 type T struct {
 	K      Kind
-	S      string // literal text / class or anchor name / capture or sub name
+	S      string // literal text / class or anchor name / capture or sub name / loop name ("" = unnamed loop)
 	Neg    bool
 	Min    int
 	Max    int // -1 = unbounded
@@ -172,6 +172,9 @@ func render(t *T) string {
 		s := loopHead(t) + " " + renderLitForm(t.Kids[0])
 		if t.Fewest {
 			s += " fewest"
+		}
+		if t.S != "" {
+			s += " named " + t.S // a named loop: its captures are reported per iteration
 		}
 		return s
 	}
